@@ -77,7 +77,8 @@ GROUPS = {"allocation": "proximity", "direction": "proximity",
           "arvi": "indices3", "sipi": "indices3", "ebbi": "indices3",
           "trim": "window", "crop": "window", "regions": "regions",
           "hotspots": "convolution", "convolution_2d": "convolution",
-          "perlin": "perlin", "generate_terrain": "generate_terrain"}
+          "perlin": "perlin", "generate_terrain": "generate_terrain",
+          "circle_kernel": "kernels", "annulus_kernel": "kernels", "calc_cellsize": "kernels"}
 for _n in ("cell_stats", "combine", "lesser_frequency", "equal_frequency", "greater_frequency",
            "lowest_position", "highest_position", "popularity", "rank"):
     GROUPS["local_" + _n] = "local"
@@ -166,6 +167,20 @@ def catalogue_c11(seed, tier, rng):
     c.add("focal", "focal_mean", [fzi], {})
     c.add("focal", "focal_mean", [fz], {"passes": 2})
     c.add("focal", "focal_mean", [e8], {"passes": 2}, backend="dask", chunks={e8: _chunks(rng, (H0, W0))})
+    c.add("focal", "focal_mean", [e8], {"excludes": [float("nan"), 45.0]}, backend="dask",
+          chunks={e8: _chunks(rng, (H0, W0))})
+    c.add("focal", "focal_mean", [fz], {"excludes": [0.0]}, backend="dask", chunks={fz: _chunks(rng, (H0, W0))})
+    c.add("focal", "focal_mean", [fz], {"excludes": [1.0, 2.0]}, backend="dask", chunks={fz: _chunks(rng, (H0, W0))})
+    # kernel construction (results are caller-owned arrays: scribbling on one must not change the next)
+    for rad in (2, 3, "4"):
+        c.add("kernels", "circle_kernel", [], {"cellsize_x": 1, "cellsize_y": 1, "radius": rad}, identity="own")
+    c.add("kernels", "circle_kernel", [], {"cellsize_x": 1.0, "cellsize_y": 2.0, "radius": 4}, identity="own")
+    c.add("kernels", "annulus_kernel", [], {"cellsize_x": 1, "cellsize_y": 1, "outer_radius": 3, "inner_radius": 1},
+          identity="own")
+    c.add("kernels", "annulus_kernel", [], {"cellsize_x": 1, "cellsize_y": 1, "outer_radius": 4, "inner_radius": 2},
+          identity="own")
+    c.add("kernels", "calc_cellsize", [e8], {}, identity="own")
+    c.add("kernels", "calc_cellsize", [eir], {}, identity="own")
     c.add("focal", "focal_stats", [e8], {"kernel": K3}, identity="own")     # default stats list
     c.add("focal", "focal_stats", [e8], {"kernel": K53, "stats_funcs": ["max", "sum"]}, identity="own")
     c.add("focal", "focal_stats", [e8], {"kernel": K53}, identity="own")     # default stats list, non-square kernel
@@ -351,7 +366,29 @@ def catalogue_c11(seed, tier, rng):
     c.add("viewshed", "viewshed", [vr], {"x": 4.0, "y": 1.0, "observer_elev": 1.5, "target_elev": 2.0},
           identity="viewshed", heavy=True)
     c.add("viewshed", "viewshed", [vr], {"x": 40.0, "y": 1.0}, identity="viewshed", expect_error="ValueError")
-    return c.data()
+    # twins: same shape, dtype, layout and georeferencing, other content.  A history may edit a live
+    # pool raster in place into its twin (what a user does between two calls on "the same" array)
+    twins = []
+    for rid, maker in ((zi, lambda: cats(rs, "i4")), (va, lambda: rs.normal(5, 20, (H0, W0))),
+                       (e8, lambda: elev(rs, "f8"))):
+        b = rid + "_b"
+        spec = copy.deepcopy(c.pool[rid])
+        spec["data"] = maker()
+        c.raster(b, spec)
+        twins.append([rid, b])
+    zib, vab, e8b = zi + "_b", va + "_b", e8 + "_b"
+    c.add("zonal", "zonal_stats", [zib, va], {}, identity="own")
+    c.add("zonal", "zonal_stats", [zi, vab], {}, identity="own")
+    c.add("zonal", "zonal_stats", [zib, vab], {"stats_funcs": ["max", "count"]}, identity="own")
+    c.add("zonal", "zonal_crosstab", [zib, vi], {}, identity="own")
+    c.add("zonal", "regions", [zib], {"neighborhood": 4})
+    c.add("terrain", "slope", [e8b])
+    c.add("focal", "focal_mean", [e8b], {})
+    c.add("classify", "natural_breaks", [e8b], {"k": 5})
+    c.add("classify", "quantile", [e8b], {"k": 5})
+    out = c.data()
+    out["twins"] = twins
+    return out
 
 
 # --------------------------------------------------------------------------
@@ -366,9 +403,15 @@ def catalogue_c10(seed, tier, rng):
     KW = np.array([[0.5, -1.0, 2.0], [1.0, 0.25, 0.0], [3.0, 1.0, -0.5]])
 
     def R(kind, dt, layout, **kw):
-        rid = "%s_%s_%s" % (kind, dt, layout)
+        scalar_res = kw.pop("scalar_res", False)
+        nan_at = kw.pop("nan_at", None)
+        rid = "%s_%s_%s%s%s" % (kind, dt, layout, "_sres" if scalar_res else "", "_nan%d_%d" % nan_at if nan_at else "")
         if rid in c.pool:
             return rid
+        if scalar_res:
+            # the scalar form of the res attribute (what bump / make_terrain produce)
+            kw["cx"] = kw["cy"] = 2.0
+            kw["attrs"] = dict(_attrs(2.0, 2.0), res=2.0)
         H, W = kw.pop("shape", (H0, W0))
         if kind == "elev":
             d = elev(rs, dt, H, W)
@@ -391,6 +434,8 @@ def catalogue_c10(seed, tier, rng):
             d[:, -1] = 0
         else:
             raise KeyError(kind)
+        if nan_at and d.dtype.kind == "f":
+            d[nan_at] = np.nan
         return c.raster(rid, _spec(d, kw.pop("cx", 2.0), kw.pop("cy", 3.0), layout=layout, **kw))
 
     combos = [(dt, lay) for dt in ALL10 for lay in LAYOUTS]
@@ -409,6 +454,9 @@ def catalogue_c10(seed, tier, rng):
     for op in ("slope", "aspect", "curvature"):
         for dt, lay in some(per):
             c.add("terrain", op, [R("elev", dt, lay)])
+    for op in ("slope", "curvature", "aspect"):
+        for dt, lay in some(2, native=False):
+            c.add("terrain", op, [R("elev", dt, lay, scalar_res=True)])
     for dt, lay in some(per):
         c.add("terrain", "hillshade", [R("elev", dt, lay)], {"azimuth": 225, "angle_altitude": 25})
     for dt, lay in some(per):
@@ -471,6 +519,8 @@ def catalogue_c10(seed, tier, rng):
     for dt, lay in some(max(2, per // 2), native=False):
         c.add("pathfinding", "a_star_search", [R("elev", dt, lay, res=False, cx=1.0, cy=1.0, nonfinite=False)],
               {"start": (0.0, 0.0), "goal": (5.0, 6.0)}, heavy=True)
+    c.add("pathfinding", "a_star_search", [R("elev", "f8", "C", scalar_res=True, nonfinite=False)],
+          {"start": (0.0, 0.0), "goal": (10.0, 12.0)}, heavy=True)
     for dt, lay in some(max(2, per // 2), native=False):
         c.add("polygonize", "polygonize", [R("cats", dt, lay, shape=(5, 6))], {"connectivity": 4}, identity="own", heavy=True)
     for op in ("local_cell_stats", "local_combine", "local_lowest_position", "local_highest_position"):
@@ -489,6 +539,9 @@ def catalogue_c10(seed, tier, rng):
             c.add("generators", "perlin", [R("zeros", dt, lay, shape=(6, 8))], {"seed": 5}, identity="own", heavy=True)
     for dt, lay in (("f8", "C"), ("f4", "readonly"), ("f8", "strided")):
         c.add("generators", "generate_terrain", [R("zeros", dt, lay, shape=(6, 8))], {"seed": 10}, identity="own", heavy=True)
+    c.add("viewshed", "viewshed", [R("elev", "f8", "C", shape=(5, 6), res=False, cx=1.0, cy=1.0, nonfinite=False,
+                                     nan_at=(2, 2))],
+          {"x": 2.0, "y": 2.0, "observer_elev": 3}, identity="viewshed", heavy=True)   # observer on a NaN cell
     for dt, lay in some(2 if tier == "quick" else 8, native=False):
         c.add("viewshed", "viewshed", [R("elev", dt, lay, shape=(5, 6), res=False, cx=1.0, cy=1.0, nonfinite=False)],
               {"x": 2.0, "y": 2.0, "observer_elev": 3}, identity="viewshed", heavy=True)
@@ -534,6 +587,11 @@ def catalogue_c10(seed, tier, rng):
     rz, rv = R("cats", "i4", "C"), R("elev", "f8", "C")
     c.add("dask", "zonal_stats", [rz, rv], {}, backend="dask", identity="own",
           chunks={rz: [[3, 3], [7]], rv: [[6], [3, 4]]})
+    nd = float(np.asarray(c.pool[rv]["data"])[0, 0])
+    c.add("dask", "zonal_stats", [rz, rv], {"nodata_values": nd, "stats_funcs": ["mean", "count"]}, backend="dask",
+          identity="own", chunks={rz: [[3, 3], [7]], rv: [[3, 3], [7]]})
+    c.add("dask", "zonal_crosstab", [rz, R("cats", "f8", "C")], {"nodata_values": 1.0}, backend="dask", identity="own",
+          chunks={rz: [[3, 3], [7]], R("cats", "f8", "C"): [[3, 3], [7]]})
     rv2 = R("cats", "i8", "C")
     c.add("dask", "zonal_crosstab", [rz, rv2], {}, backend="dask", identity="own",
           chunks={rz: [[3, 3], [7]], rv2: [[6], [3, 4]]})
